@@ -36,7 +36,7 @@ PROPS = {
     },
     'C10': {
         'level': 'proof',
-        'verus': ['U-SANITY', 'U-RESOLVE', 'U-CONTAINS'],
+        'verus': ['U-SANITY', 'U-RESOLVE'],
         'kani': ['sanity_pass_upto4'],
         'trusted_base': ['Verus 0.2026.09.13, Z3, rustc 1.98.1'],
         'assumptions': [
